@@ -6,6 +6,7 @@ package rules
 import (
 	"sort"
 
+	"jsverif/internal/absint"
 	"jsverif/internal/core"
 )
 
@@ -42,6 +43,7 @@ func Properties() []string {
 
 // Run runs all rules of a property.
 func Run(c *core.Ctx) bool {
+	absint.FieldNameHook = core.ActivePinnedFieldName
 	e := registry[c.Property]
 	if e == nil {
 		return false
